@@ -221,12 +221,20 @@ construct_mpz_float(mpz_class& to, const From& from, Rounding_Dir dir) {
   if (from == n) {
     return V_EQ;
   }
-  if (from < 0) {
+  if (round_direct(ROUND_UP)) {
     return round_lt_mpz<To_Policy>(to, dir);
   }
-  else {
+  if (round_direct(ROUND_DOWN)) {
     return round_gt_mpz<To_Policy>(to, dir);
   }
+  if (from < n) {
+    return round_lt_mpz<To_Policy>(to, dir);
+  }
+  if (from > n) {
+    return round_gt_mpz<To_Policy>(to, dir);
+  }
+  PPL_UNREACHABLE;
+  return V_NAN;
 }
 
 PPL_SPECIALIZE_CONSTRUCT(construct_mpz_float, mpz_class, float)
